@@ -56,6 +56,12 @@ func c08Spec(n *model.Node, pos model.Position) lib.Spec {
 	h := mon.HashString(model.Canonical(w))
 	// one text in four writes the rule names (also inside or rule-sets) in quotes
 	st := model.Style{QuoteNames: h%4 == 1}
+	if len(n.Rules) >= 2 && h%5 == 2 {
+		// the rule set written as two annotations of the one node (`/* {first rules} */ // {others}`):
+		// the node carries the union of the rules, wherever each of them is written
+		n.Split = 1 + int(h/5)%(len(n.Rules)-1)
+		defer func() { n.Split = 0 }()
+	}
 	if h%3 != 0 || (pos == model.PosRoot && n.Rule("optional") != nil) {
 		return specOf(&model.Schema{Root: w, Types: gen.RuleEnv()}, st)
 	}
